@@ -240,6 +240,30 @@ def _walk_no_nested(fn):
             stack.append(c)
 
 
+_REGEX_REL = {}
+
+
+def regex_relation(r1, r2):
+    """'subset' (L(r1) inside L(r2)), 'disjoint', or None - decided by z3 on a fresh string variable."""
+    key = (r1.get_id(), r2.get_id())
+    if key not in _REGEX_REL:
+        x = z3.String("regex!probe")
+        s1 = z3.Solver()
+        s1.set("timeout", 5000)
+        s1.add(z3.InRe(x, r1), z3.Not(z3.InRe(x, r2)))
+        rel = None
+        if s1.check() == z3.unsat:
+            rel = "subset"
+        else:
+            s2 = z3.Solver()
+            s2.set("timeout", 5000)
+            s2.add(z3.InRe(x, r1), z3.InRe(x, r2))
+            if s2.check() == z3.unsat:
+                rel = "disjoint"
+        _REGEX_REL[key] = (rel, r1, r2)  # keep the terms alive: ids are reused otherwise
+    return _REGEX_REL[key][0]
+
+
 # --------------------------------------------------------------------------- source index
 
 _MODULE_INDEX = {}
@@ -319,6 +343,8 @@ class Interp:
         self.singletons = {}
         self.unsupported_ok = False
         self.sub_pc_start = None
+        self.regex_facts = []
+        self.model, self.model_ok = None, 0
         self.side_obligations = []  # (label, premises, goal): preconditions at modular call sites, asserts
         self.flags = {}
 
@@ -331,6 +357,46 @@ class Interp:
             return
         self.pc.append(c)
         self.solver.add(c)
+        self._note_regex_fact(c)
+
+    # ---- regular-language shortcuts: membership questions about a string that already has
+    # ---- membership facts are answered from language inclusion / disjointness of the two (concrete)
+    # ---- regexes, decided once per pair by a stand-alone query on a fresh variable (milliseconds),
+    # ---- instead of in the full path condition (seconds).
+
+    def _note_regex_fact(self, c):
+        pol = True
+        while z3.is_not(c):
+            c, pol = c.arg(0), not pol
+        if z3.is_app(c) and c.decl().kind() == z3.Z3_OP_SEQ_IN_RE:
+            self.regex_facts.append((c.arg(0), c.arg(1), pol))
+        elif pol and z3.is_and(c):
+            for k in range(c.num_args()):
+                self._note_regex_fact(c.arg(k))
+
+    def _regex_shortcut(self, c):
+        pol = True
+        while z3.is_not(c):
+            c, pol = c.arg(0), not pol
+        if not (z3.is_app(c) and c.decl().kind() == z3.Z3_OP_SEQ_IN_RE):
+            return None
+        x, r = c.arg(0), c.arg(1)
+        for x0, r0, pol0 in self.regex_facts:
+            if not z3.eq(x0, x):
+                continue
+            ans = None
+            if pol0:
+                rel = regex_relation(r0, r)
+                if rel == "subset":
+                    ans = True
+                elif rel == "disjoint":
+                    ans = False
+            else:
+                if regex_relation(r, r0) == "subset":
+                    ans = False  # x not in r0 and r inside r0
+            if ans is not None:
+                return ans if pol else (not ans)
+        return None
 
     def check(self, c=None):
         self.solver_calls += 1
@@ -338,7 +404,36 @@ class Interp:
             r = self.solver.check()
         else:
             r = self.solver.check(c)
+        if r == z3.sat:
+            try:
+                self.model = self.solver.model()
+                self.model_ok = len(self.pc)
+            except z3.Z3Exception:
+                self.model = None
         return r != z3.unsat
+
+    def model_says(self, c):
+        """True/False when the last satisfying assignment found on this path still satisfies the
+        path condition and gives `c` that value (so that side of a branch is feasible without a
+        solver call); None otherwise."""
+        m = self.model
+        if m is None:
+            return None
+        try:
+            for p in self.pc[self.model_ok:]:
+                if not z3.is_true(m.eval(p, model_completion=True)):
+                    self.model = None
+                    return None
+            self.model_ok = len(self.pc)
+            v = m.eval(c, model_completion=True)
+        except z3.Z3Exception:
+            self.model = None
+            return None
+        if z3.is_true(v):
+            return True
+        if z3.is_false(v):
+            return False
+        return None
 
     def valid(self, c):
         """pc => c ?  (unknown counts as not valid)"""
@@ -359,8 +454,18 @@ class Interp:
             if decided:
                 self.assume(c if val else z3.Not(c))
             return val
-        t = self.check(c)
-        f = self.check(z3.Not(c)) if t else True  # the path so far is feasible: one side must be
+        short = self._regex_shortcut(c)
+        if short is not None:
+            self.oracle.forced(short)
+            return short
+        known = self.model_says(c)
+        if known is True:
+            t, f = True, self.check(z3.Not(c))
+        elif known is False:
+            t, f = self.check(c), True
+        else:
+            t = self.check(c)
+            f = self.check(z3.Not(c)) if t else True  # the path so far is feasible: one side must be
         if t and f:
             d = self.oracle.decide()
             self.assume(c if d else z3.Not(c))
@@ -520,7 +625,7 @@ class Interp:
         """
         results = []
         work = [[]]
-        saved = (self.heap, self.oracle, self.trace, len(self.pc), list(self.index_terms))
+        saved = (self.heap, self.oracle, self.trace, len(self.pc), list(self.index_terms), len(self.regex_facts))
         outer_start = self.sub_pc_start
         n = 0
         while work:
@@ -548,6 +653,8 @@ class Interp:
                 work.extend(self.oracle.alts)
                 self.solver.pop()
                 del self.pc[saved[3]:]
+                self.model_ok = min(self.model_ok, saved[3])
+                del self.regex_facts[saved[5]:]
                 self.index_terms = list(saved[4])
         self.heap, self.oracle, self.trace = saved[0], saved[1], saved[2]
         self.sub_pc_start = outer_start
